@@ -179,6 +179,15 @@ def flpGen (S : List Nat) (C b : List Basis) (addConst : Bool) : List CRow × Na
   let st := genRun S S.length 2 (flpSetup C b addConst)
   (st.rows ++ flpFinalRows (flpPhi C addConst) st.finals, st.ncols)
 
+/-- a constant as a basis function: ones over the first state factor -/
+def onesBasis (S : List Nat) : Basis := ⟨[0], List.replicate (S.getD 0 0) 1⟩
+
+/-- `deleg = true`: the source solves (no basis, constant basis requested) by calling itself with the single basis `onesBasis`
+    and no constant (fixes/C15-4; the flag comes from the translator).  `deleg = false`: the code as first written, where the
+    constant is then carried by no rule (finding C15-flp-const-without-basis). -/
+def flpGenD (deleg : Bool) (S : List Nat) (C b : List Basis) (addConst : Bool) : List CRow × Nat :=
+  if deleg && addConst && C.isEmpty then flpGen S [onesBasis S] b false else flpGen S C b addConst
+
 /-! ## Factored::MDP::LinearProgramming::solveLP -/
 
 def isZeroSmall (q : Rat) : Bool := decide (absQ q ≤ AITB.Gen.equalToleranceSmall)
